@@ -20,7 +20,7 @@ const header = "From GL Require Import Common.Bytes Table.TImpl Table.TSpec Tabl
 const defaultMai = 67108864
 
 type Cmp struct {
-	Kind string `json:"kind"` // default nil lt gt lt_truthy gt_truthy mod const bits failat
+	Kind string `json:"kind"` // default nil lt gt lt_truthy gt_truthy mod const bits failat meta metalt (B: descending)
 	M    int64  `json:"m,omitempty"`
 	B    bool   `json:"b,omitempty"`
 	Bits []bool `json:"bits,omitempty"`
@@ -38,7 +38,44 @@ type Step struct {
 	N      int64  `json:"n,omitempty"`      // fill: how many
 	JHuge  bool   `json:"jhuge,omitempty"`  // unpack: j = math.huge
 	Cmp    *Cmp   `json:"cmp,omitempty"`
+	Nest   *Nest  `json:"nest,omitempty"` // sort: what the comparator does besides answering
+	Co     bool   `json:"co,omitempty"`   // sort: table.sort runs inside a coroutine started for it
+	Act    string `json:"act,omitempty"`  // sortmut: remove (default) | sortself | insert
 }
+
+// Nest: the comparator (or __lt metamethod) of a sort re-enters the table library: at its At-th
+// call (1-based), and then at every Every-th call after that (0 = only once), it performs the next
+// of Acts (cycled) before answering.
+type Nest struct {
+	At    int64     `json:"at"`
+	Every int64     `json:"every,omitempty"`
+	Acts  []NestAct `json:"acts"`
+}
+
+// NestAct: table.sort(u, cmp) on a fresh table u holding List.
+//   sort   called unprotected on the thread the comparator runs on
+//   pcall  the same under pcall (the inner comparator may fail; the outer sort goes on)
+//   co     inside a coroutine created on the spot (coroutine.wrap)
+//   state2 in a second, independent Lua state of the same process
+type NestAct struct {
+	Kind string `json:"kind"`
+	List []tv.V `json:"list"`
+	Cmp  *Cmp   `json:"cmp"`
+	Nest *Nest  `json:"nest,omitempty"` // the inner comparator re-enters as well (one more level)
+}
+
+type call struct{ A, B tv.V }
+
+// sortRec: one nested table.sort as observed
+type sortRec struct {
+	List   []tv.V
+	Cmp    *Cmp
+	Calls  []call
+	Raised bool
+	Final  []tv.V
+}
+
+const maxInner = 24 // nested sorts recorded (and performed) per sort step
 
 type Input struct {
 	Steps []Step `json:"steps"`
@@ -53,6 +90,7 @@ function c_gt(a,b) return a > b end
 function c_lt_truthy(a,b) if a < b then return 0 else return nil end end
 function c_gt_truthy(a,b) if a > b then return "yes" else return false end end
 function c_mod(m) return function(a,b) return a % m < b % m end end
+function h_co(f, ...) return coroutine.wrap(function(...) return f(...) end)(...) end
 `
 
 type runner struct {
@@ -66,9 +104,21 @@ type runner struct {
 	stop   bool
 	nsort  int
 	nmut   int
+	inner  []*sortRec
 }
 
-var theL *lua.LState
+var theL, theL2 *lua.LState
+
+// state2: a second Lua state of the process (sorts there must not interfere with sorts here)
+func state2() *lua.LState {
+	if theL2 == nil {
+		theL2 = lua.NewState()
+		if err := theL2.DoString(helpers); err != nil {
+			panic(err)
+		}
+	}
+	return theL2
+}
 
 func newRunner() *runner {
 	if theL == nil {
@@ -80,7 +130,7 @@ func newRunner() *runner {
 	r := &runner{L: theL}
 	r.L.SetTop(0)
 	lua.MaxArrayIndex = defaultMai
-	r.pool = tv.NewPool(r.L, 3)
+	r.pool = tv.NewPool(r.L, 6)
 	res, _ := r.callG("h_new")
 	r.t = res[0].(*lua.LTable)
 	return r
@@ -195,6 +245,8 @@ func (r *runner) exec(s *Step) {
 	defer func() {
 		if e := recover(); e != nil {
 			r.failf("Go panic in %s: %v", s.Op, e)
+			// the states may hold half-unwound frames: the next case starts from fresh ones
+			theL, theL2 = nil, nil
 		}
 	}()
 	t := r.t
@@ -234,10 +286,24 @@ func (r *runner) exec(s *Step) {
 			}
 			ncall++
 			if ncall == *s.I {
-				L.Push(L.GetField(L.GetGlobal("table"), "remove"))
-				L.Push(t)
-				L.Push(lua.LNumber(1))
-				L.Call(2, 0)
+				switch s.Act {
+				case "sortself": // the comparator sorts the very table being sorted (default order)
+					L.Push(L.GetField(L.GetGlobal("table"), "sort"))
+					L.Push(t)
+					L.Call(1, 0)
+				case "insert": // the table grows (its array may be reallocated) under the running sort
+					for i := 0; i < 40; i++ {
+						L.Push(L.GetField(L.GetGlobal("table"), "insert"))
+						L.Push(t)
+						L.Push(a)
+						L.Call(2, 0)
+					}
+				default:
+					L.Push(L.GetField(L.GetGlobal("table"), "remove"))
+					L.Push(t)
+					L.Push(lua.LNumber(1))
+					L.Call(2, 0)
+				}
 			}
 			if s.Cmp != nil && s.Cmp.Kind == "const" {
 				L.Push(lua.LTrue)
@@ -389,80 +455,202 @@ func (r *runner) exec(s *Step) {
 		coq = "LRead " + tv.CoqVals(vs)
 	case "sort":
 		n := r.length()
-		type call struct{ A, B tv.V }
-		var calls []call
-		ncall := int64(0)
 		c := s.Cmp
-		var inner lua.LValue
+		var calls []call
+		r.inner = nil
+		rec := r.cmpFn(r.L, c, s.Nest, &calls, 0)
+		sortfn := r.L.GetField(r.L.GetGlobal("table"), "sort")
+		args := []lua.LValue{t}
 		switch c.Kind {
-		case "lt":
-			inner = r.L.GetGlobal("c_lt")
-		case "gt":
-			inner = r.L.GetGlobal("c_gt")
-		case "lt_truthy":
-			inner = r.L.GetGlobal("c_lt_truthy")
-		case "gt_truthy":
-			inner = r.L.GetGlobal("c_gt_truthy")
-		case "mod":
-			res, err := r.callG("c_mod", lua.LNumber(c.M))
-			if err != nil {
-				r.failf("c_mod: %v", err)
-				return
+		case "default":
+		case "nil":
+			args = append(args, lua.LNil)
+		case "meta", "metalt":
+			// the objects get one metatable whose __lt is the recording function
+			mt := r.L.NewTable()
+			mt.RawSetString("__lt", rec)
+			for _, o := range r.pool.Objs {
+				r.L.SetMetatable(o, mt)
 			}
-			inner = res[0]
+			if c.Kind == "metalt" {
+				args = append(args, r.L.GetGlobal("c_lt"))
+			}
+		default:
+			args = append(args, rec)
 		}
-		rec := r.L.NewFunction(func(L *lua.LState) int {
-			a, b := L.Get(1), L.Get(2)
-			calls = append(calls, call{r.of(a), r.of(b)})
-			k := ncall
-			ncall++
-			switch c.Kind {
-			case "const":
-				L.Push(lua.LBool(c.B))
-			case "bits":
-				v := false
-				if int(k) < len(c.Bits) {
-					v = c.Bits[k]
-				}
-				L.Push(lua.LBool(v))
-			case "failat":
-				if k+1 == c.K {
-					L.RaiseError("comparator failure")
-				}
-				L.Push(lua.LBool(lessOrRaise(L, a, b)))
-			default:
-				L.Push(inner)
-				L.Push(a)
-				L.Push(b)
-				L.Call(2, 1)
-			}
-			return 1
-		})
 		var err error
-		if c.Kind == "default" {
-			_, err = r.callT("sort", t)
-		} else if c.Kind == "nil" {
-			_, err = r.callT("sort", t, lua.LNil)
+		if s.Co {
+			_, err = r.callG("h_co", append([]lua.LValue{sortfn}, args...)...)
 		} else {
-			_, err = r.callT("sort", t, rec)
+			_, err = r.callF(sortfn, args...)
+		}
+		if c.Kind == "meta" || c.Kind == "metalt" {
+			for _, o := range r.pool.Objs {
+				r.L.SetMetatable(o, lua.LNil)
+			}
 		}
 		raised := err != nil
+		if err != nil && strings.Contains(err.Error(), "runtime error") {
+			r.failf("table.sort ended in a Go runtime error: %v", err)
+		}
 		final := make([]tv.V, 0, n)
 		for i := int64(1); i <= n; i++ {
 			final = append(final, r.rawget(i))
 		}
-		cs := make([]string, len(calls))
-		for i, x := range calls {
-			cs[i] = "(" + x.A.CoqVal() + ", " + x.B.CoqVal() + ")"
+		for _, ir := range r.inner {
+			r.coq = append(r.coq, fmt.Sprintf("(LSortAt %s %s %s %s %s)", tv.CoqVals(ir.List), ir.Cmp.coq(), coqCalls(ir.Calls), lib.CoqBool(ir.Raised), tv.CoqVals(ir.Final)))
+			r.obs = append(r.obs, map[string]any{"nested": true, "raised": ir.Raised, "final": ir.Final, "ncalls": len(ir.Calls)})
 		}
-		obs = map[string]any{"raised": raised, "final": final, "ncalls": len(calls)}
-		coq = fmt.Sprintf("LSort %s %s %s %s", c.coq(), lib.CoqList(cs), lib.CoqBool(raised), tv.CoqVals(final))
+		obs = map[string]any{"raised": raised, "final": final, "ncalls": len(calls), "nested": len(r.inner)}
+		if c.Kind == "meta" || c.Kind == "metalt" {
+			coq = fmt.Sprintf("LSortMeta %s %s %s %s", lib.CoqBool(c.B), coqCalls(calls), lib.CoqBool(raised), tv.CoqVals(final))
+		} else {
+			coq = fmt.Sprintf("LSort %s %s %s %s", c.coq(), coqCalls(calls), lib.CoqBool(raised), tv.CoqVals(final))
+		}
+		r.inner = nil
 		r.nsort++
 	default:
 		r.failf("unknown op %s", s.Op)
 	}
 	r.coq = append(r.coq, "("+coq+")")
 	r.obs = append(r.obs, obs)
+}
+
+func coqCalls(calls []call) string {
+	cs := make([]string, len(calls))
+	for i, x := range calls {
+		cs[i] = "(" + x.A.CoqVal() + ", " + x.B.CoqVal() + ")"
+	}
+	return lib.CoqList(cs)
+}
+
+// cmpFn builds the comparator for c as a Go function of state L0: it records its two arguments,
+// performs the nested acts of nest (if any) at the calls nest selects, then answers as c says.
+// Everything it does goes through the state it is called with (a coroutine's, when it runs in one).
+func (r *runner) cmpFn(L0 *lua.LState, c *Cmp, nest *Nest, calls *[]call, depth int) *lua.LFunction {
+	ncall := int64(0)
+	nact := 0
+	return L0.NewFunction(func(L *lua.LState) int {
+		a, b := L.Get(1), L.Get(2)
+		*calls = append(*calls, call{r.of(a), r.of(b)})
+		k := ncall
+		ncall++
+		if nest != nil && len(nest.Acts) > 0 && len(r.inner) < maxInner &&
+			(ncall == nest.At || (ncall > nest.At && nest.Every > 0 && (ncall-nest.At)%nest.Every == 0)) {
+			act := &nest.Acts[nact%len(nest.Acts)]
+			nact++
+			r.nestedSort(L, act, depth+1)
+		}
+		switch c.Kind {
+		case "const":
+			L.Push(lua.LBool(c.B))
+		case "bits":
+			v := false
+			if int(k) < len(c.Bits) {
+				v = c.Bits[k]
+			}
+			L.Push(lua.LBool(v))
+		case "failat":
+			if k+1 == c.K {
+				L.RaiseError("comparator failure")
+			}
+			L.Push(lua.LBool(lessOrRaise(L, a, b)))
+		case "meta", "metalt":
+			// __lt of two pool objects: by identity number
+			va, vb := r.of(a), r.of(b)
+			if va.T != "o" || vb.T != "o" {
+				L.RaiseError("__lt called with a non-object")
+			}
+			if c.B {
+				L.Push(lua.LBool(vb.O < va.O))
+			} else {
+				L.Push(lua.LBool(va.O < vb.O))
+			}
+		default:
+			var inner lua.LValue
+			switch c.Kind {
+			case "gt":
+				inner = L.GetGlobal("c_gt")
+			case "lt_truthy":
+				inner = L.GetGlobal("c_lt_truthy")
+			case "gt_truthy":
+				inner = L.GetGlobal("c_gt_truthy")
+			case "mod":
+				L.Push(L.GetGlobal("c_mod"))
+				L.Push(lua.LNumber(c.M))
+				L.Call(1, 1)
+				inner = L.Get(-1)
+				L.Pop(1)
+			default:
+				inner = L.GetGlobal("c_lt")
+			}
+			L.Push(inner)
+			L.Push(a)
+			L.Push(b)
+			L.Call(2, 1)
+		}
+		return 1
+	})
+}
+
+// nestedSort: table.sort(u, cmp) on a fresh table u, from inside a running comparator on L.
+func (r *runner) nestedSort(L *lua.LState, act *NestAct, depth int) {
+	LL := L
+	if act.Kind == "state2" {
+		LL = state2()
+	}
+	u := LL.NewTable()
+	for _, v := range act.List {
+		u.Append(r.pool.L(v))
+	}
+	rec := &sortRec{List: act.List, Cmp: act.Cmp}
+	var nest *Nest
+	if depth < 2 {
+		nest = act.Nest
+	}
+	sortfn := LL.GetField(LL.GetGlobal("table"), "sort")
+	args := []lua.LValue{u}
+	switch act.Cmp.Kind {
+	case "default":
+	case "nil":
+		args = append(args, lua.LNil)
+	default:
+		args = append(args, r.cmpFn(LL, act.Cmp, nest, &rec.Calls, depth))
+	}
+	var err error
+	switch act.Kind {
+	case "pcall":
+		L.Push(sortfn)
+		for _, x := range args {
+			L.Push(x)
+		}
+		err = L.PCall(len(args), 0, nil)
+	case "co":
+		L.Push(L.GetGlobal("h_co"))
+		L.Push(sortfn)
+		for _, x := range args {
+			L.Push(x)
+		}
+		L.Call(len(args)+1, 0)
+	case "state2":
+		top := LL.GetTop()
+		err = LL.CallByParam(lua.P{Fn: sortfn, NRet: 0, Protect: true}, args...)
+		LL.SetTop(top)
+	default:
+		L.Push(sortfn)
+		for _, x := range args {
+			L.Push(x)
+		}
+		L.Call(len(args), 0)
+	}
+	if err != nil && strings.Contains(err.Error(), "runtime error") {
+		r.failf("nested table.sort ended in a Go runtime error: %v", err)
+	}
+	rec.Raised = err != nil
+	for i := 1; i <= len(act.List); i++ {
+		rec.Final = append(rec.Final, r.of(u.RawGetInt(i)))
+	}
+	r.inner = append(r.inner, rec)
 }
 
 // lessOrRaise: a < b through the VM's comparison (raises the Lua error for incomparable values).
@@ -492,6 +680,17 @@ func runCase(w *lib.Writer, in *Input, class string, plan func(r *runner) *Step)
 			r.exec(&in.Steps[i])
 			if r.fail != "" || r.stop {
 				break
+			}
+		}
+	}
+	if class == "sort" {
+		for i := range in.Steps {
+			if in.Steps[i].Nest != nil {
+				class = "sortnest"
+				break
+			}
+			if c := in.Steps[i].Cmp; c != nil && (c.Kind == "meta" || c.Kind == "metalt") {
+				class = "sortmeta"
 			}
 		}
 	}
